@@ -22,6 +22,11 @@ def judge(stim, ev):
             continue
         if not op["det"]:
             continue     # no applicable primary and no :around that stops: the statement leaves the outcome open
+        if stim["univ"] == "retry":
+            # bodies of the retry profile (Generic!EffectiveRetry): the trace, and an error exactly when the primary fails
+            if ob["trace"] != op["exp2"] or bool(ob["st"]) == op["ok2"]:
+                return f"step {i + 1}: call {op['s']} ran {ob['trace']} {ob['st']} want {op['exp2']}{'' if op['ok2'] else ' and an error'}"
+            continue
         if ob["st"] or ob["trace"] != op["exp"]:
             return f"step {i + 1}: call {op['s']} ran {ob['trace']} {ob['st']} want {op['exp']}"
     return ""
@@ -37,10 +42,15 @@ def run(tier, seed):
     stimuli, gens = [], []
     rows, g = gen.bfs(SPEC, "Generic", "Generic.cfg", {"MaxOps": d1, "Arity": 1}, timeout=3000)
     stimuli += [{"arity": 1, "univ": "user", "ops": r["hist"]} for r in rows]
+    # the same histories with the method bodies of the retry profile (call-next-method again after the first call was left
+    # through an error): those that have an :around method
+    stimuli += [{"arity": 1, "univ": "retry", "ops": r["hist"]} for r in rows if any(o["q"] == "around" for o in r["hist"])]
     gens.append(g)
     # the same histories against built-in classes (fixnum < integer < real < t): one level less
     rows, g = gen.bfs(SPEC, "Generic", "Generic.cfg", {"MaxOps": d1 - 1, "Arity": 1}, timeout=3000)
     stimuli += [{"arity": 1, "univ": "builtin", "ops": r["hist"]} for r in rows]
+    # ... against cons < list < sequence (a dotted pair and a proper list are of one Go type and of different classes)
+    stimuli += [{"arity": 1, "univ": "lists", "ops": r["hist"]} for r in rows]
     gens.append(g)
     rows, g = gen.bfs(SPEC, "Generic", "Generic.cfg", {"MaxOps": d2, "Arity": 2}, timeout=3000)
     stimuli += [{"arity": 2, "univ": "user", "ops": r["hist"]} for r in rows]
@@ -90,7 +100,7 @@ def run(tier, seed):
                     "traces_validated_against_impl": len(stimuli), "evaluations": len(stimuli),
                     "distinct_nontrivial": len(shapes), "exhaustive": True,
                     "rule": f"one history of defmethod (new or replacing) / remove-method / call per transition of Generic.tla: 1 argument depth<={d1} "
-                            f"on a defclass chain and depth<={d1 - 1} on fixnum<integer<real, 2 arguments depth<={d2}; VIEW = method table + "
+                            f"on a defclass chain and depth<={d1 - 1} on fixnum<integer<real, on cons<list<sequence and with the bodies of the retry profile (Generic!EffectiveRetry), 2 arguments depth<={d2}; VIEW = method table + "
                             f"what each argument class tuple ran when last called (ghost of the cache) - exhaustive; plus the final states of {walks} "
                             "random walks each for 2 arguments x 12 operations and 1 argument x 16 operations through the same Next relation. "
                             "Every call step of every history is compared with the effective-method trace TLC computed from the reference; "
